@@ -6,7 +6,7 @@ ROOT = pathlib.Path(__file__).resolve().parents[1]
 tmpl = (ROOT / "tools" / "design_sec10.md").read_text()
 res = json.loads((ROOT / "seeded" / "RESULTS.json").read_text()) if (ROOT / "seeded" / "RESULTS.json").exists() else {}
 rows = ["| id | the change | needs to manifest | caught by (quick tier) — smallest failing case reported |", "|---|---|---|---|"]
-for d in sorted(glob.glob(str(ROOT / "seeded" / "C*-[mwxyzv]*"))):
+for d in sorted(glob.glob(str(ROOT / "seeded" / "C*-[mwxyzvu]*"))):
     m = json.loads(open(d + "/meta.json").read()); sid = m["id"]; r = res.get(sid, {})
     cell = "; ".join(f"{k.split('/')[0]}: " + ("`" + v["smallest_failing_case"][:90].replace("|", "/").replace("`", "'") + "`" if v["caught"] else "**missed**") for k, v in sorted(r.items())) or "not run"
     rows.append(f"| {sid} | {m['summary'][:230].replace('|', '/')} | {m.get('needs_to_manifest', '')[:200].replace('|', '/')} | {cell} |")
@@ -20,6 +20,8 @@ w4 = ROOT / "tools" / "design_wave4.md"
 tmpl = tmpl.replace("WAVE4_TEXT", w4.read_text() if w4.exists() else "(evaluation in progress)")
 w5 = ROOT / "tools" / "design_wave5.md"
 tmpl = tmpl.replace("WAVE5_TEXT", w5.read_text() if w5.exists() else "")
+w7 = ROOT / "tools" / "design_wave7.md"
+tmpl = tmpl.replace("WAVE7_TEXT", w7.read_text() if w7.exists() else "")
 w6 = ROOT / "tools" / "design_wave6.md"
 tmpl = tmpl.replace("WAVE6_TEXT", w6.read_text() if w6.exists() else "")
 tmpl = tmpl.replace("N_SEEDED", str(len(rows) - 2)).replace("SEEDED_TABLE", "\n".join(rows))
